@@ -219,6 +219,17 @@ def fam_select(tier, rng):
                             b.select(var("X", t), cases, [b.print(lit("$", "else"))] if els else None),
                             b.print(lit("$", "end"))]
                     out.append({"fam": "select:%s" % t, "prog": prog(main)})
+    # every test form at, just below and just above its boundary values, for every subject type
+    tests = [("eq", lambda: [eqt(lit("I", 3))]), ("range", lambda: [rng_(3, 5)]), ("list", lambda: [eqt(lit("I", 1)), rng_(3, 5), ist(">", lit("I", 8))])]
+    tests += [("is" + op, (lambda op=op: [ist(op, lit("I", 3))])) for op in ("=", "<>", "<", "<=", ">", ">=")]
+    for name, f in tests:
+        for t in ("I", "L", "S", "D"):
+            for v in (0, 1, 2, 3, 4, 5, 6, 8, 9):
+                b = B()
+                main = [set_var(b, "X", t, v),
+                        b.select(var("X", t), [(f(), [b.print(lit("$", "hit"))])], [b.print(lit("$", "else"))]),
+                        b.print(lit("$", "end"))]
+                out.append({"fam": "select-edge:%s/%s" % (name, t), "prog": prog(main)})
     for s in ["a", "b", "c", ""]:
         b = B()
         cases = [([eqt(lit("$", "a"))], [b.print(lit("$", "A"))]),
